@@ -129,12 +129,16 @@ func propC07(c *Ctx) int {
 		c.RunJob(Job{Name: fmt.Sprintf("include trace variant=%d", v), Pkg: "core", Fn: "HIncludeTrace", Params: map[string]int64{"variant": v},
 			Stubs: []string{"rune"}, PanicIsViolation: true, MaxPaths: 100000, Timeout: 30 * time.Minute, MustReach: []string{"trace"}})
 	}
+	// errors inside schema bodies: located at the invalid byte, in the file that holds the body
+	c.RunJob(Job{Name: "body error location", Pkg: "core", Fn: "HBodyError", Stubs: []string{"rune"}, PanicIsViolation: true, MaxPaths: 100000, Timeout: 30 * time.Minute,
+		MaxSteps: 8000000, MaxDepth: 1000, MustReach: []string{"body-error-located"}})
 	// every error of the build: file in the project, index inside the file (rides on the C01 harnesses)
 	for _, pre := range []int64{0, 9, 18, 27, 45, 46, 48, 56, 58} {
 		c.RunJob(Job{Name: fmt.Sprintf("error location prefix#%d +2B", pre), Pkg: "core", Fn: "HBuild", Params: map[string]int64{"n": 2, "pre": pre},
 			Stubs: []string{"rune"}, PanicIsViolation: false, MaxPaths: 2000000, Timeout: 30 * time.Minute, AllowDrops: []string{"on symbolic operand"}})
 	}
 	return c.Finish("model_checking", []string{
+		"errors inside schema bodies (HBodyError): an invalid byte (symbolic choice of byte and property) in the body of TYPE / Query / Headers / Path / Request / response / Params / Result / Body — directive kind and placement (root, INCLUDEd file, pasted MACRO body) symbolic — is reported in the file that holds the body at the index of that byte with its line, column and quote",
 		"include trace: root.jst with two INCLUDEs (targets symbolic over {a,b}), a and b include c at different lines; error raised in c during scanning (live stack) and after scanning (directive include tracer): the rendered trace must be [error file:line, includer:line of its INCLUDE, root:line of the INCLUDE followed]",
 		"error location of the whole build: 2 arbitrary bytes after 9 witness prefixes with the REAL NewLocation (no contract stub): File inside the project, Index <= len(File)",
 		fmt.Sprintf("bound: file content <= %d arbitrary bytes, every index 0..len+2, one of three line-ending conventions (LF only / CRLF only / CR only); lines longer than 200 bytes (truncated quote) are outside the bound", n),
@@ -223,14 +227,15 @@ func propC12(c *Ctx) int {
 	}
 	// exactness: rendered directive lines
 	type cfg struct{ l1, l2, q1, q2, la, ml, nl int64 }
-	cfgs := []cfg{{2, 0, 0, 0, -1, 0, 0}, {2, 2, 0, 1, -1, 0, 1}, {1, 0, 1, 0, 2, 0, 0}, {2, 0, 0, 0, 2, 1, 2}, {0, 0, 0, 0, 1, 0, 3}, {2, 1, 1, 0, 0, 1, 3}}
+	cfgs := []cfg{{2, 0, 0, 0, -1, 0, 0}, {2, 2, 0, 1, -1, 0, 1}, {1, 0, 1, 0, 2, 0, 0}, {2, 0, 0, 0, 2, 1, 2}, {0, 0, 0, 0, 1, 0, 3}, {2, 1, 1, 0, 0, 1, 3},
+		{1, 0, 0, 0, 2, 0, 2}, {1, 0, 0, 0, 2, 0, 1}, {0, 0, 0, 0, 2, 1, 1}}
 	if thorough {
 		cfgs = append(cfgs, cfg{3, 2, 0, 0, 3, 0, 0}, cfg{3, 0, 1, 0, 3, 1, 1}, cfg{2, 3, 1, 1, 2, 0, 2}, cfg{4, 0, 0, 0, -1, 0, 3})
 	}
 	nkw := int64(14)
 	for kw := int64(0); kw < nkw; kw++ {
 		for ci, g := range cfgs {
-			if !thorough && (int(kw)+ci)%3 != 0 {
+			if !thorough && (int(kw)+ci)%3 != int(c.Seed)%3 {
 				continue // quick: a third of the matrix (every keyword and every shape still occurs)
 			}
 			j := base
@@ -536,7 +541,7 @@ func propC03(c *Ctx) int {
 		c.RunJob(j)
 	}
 	return c.Finish("model_checking", []string{
-		"fault catalogue (harness/core/zz_verif_c03.go, 30 classes: duplicate interaction/type/enum/server/tag/macro/OperationId, similar and duplicated path parameters, second Title/Version/Description/Query/Request body/Headers/BaseUrl/Protocol, undefined type/tag/macro, missing required parameter, forbidden annotation, JSIGHT repeated, Type+SchemaNotation, Method without Protocol, request/response with Headers but without a body) injected into a valid document; fault class and placement (root file / INCLUDEd file / pasted MACRO body) are symbolic; oracle: rejected, message of that class, located in the file and on the line of the offending directive (real jerr.NewLocation, no contract stub)",
+		"fault catalogue (harness/core/zz_verif_c03.go, 52 classes: duplicate interaction/type/enum/server/tag/macro/OperationId, similar and duplicated path parameters, second Title/Version/Description/Query/Request body/Headers/BaseUrl/Protocol, undefined type/tag/macro, missing required parameter, forbidden annotation, JSIGHT repeated, Type+SchemaNotation, Method without Protocol, request/response with Headers but without a body) injected into a valid document; fault class and placement (root file / INCLUDEd file / pasted MACRO body) are symbolic; oracle: rejected, message of that class, located in the file and on the line of the offending directive (real jerr.NewLocation, no contract stub)",
 		"symbolic names: a TYPE/ENUM/SERVER/TAG/MACRO/OperationId/method path with a symbolic two-byte name is appended: rejected as duplicate on that directive exactly when the name equals the existing name of its kind (the solver finds the equal-name case), accepted otherwise",
 		"outside: faults crossed with layouts (C08), rule/example mismatches inside schemas (jsight-schema-core)",
 		"JSIGHT missing, not first, without version, with a wrong (symbolic) version: rejected on line 1",
@@ -565,7 +570,7 @@ func propC02(c *Ctx) int {
 		reached += jr.Stats.Reached["model-roundtrip"]
 	}
 	// feature groups: semantically related features symbolic together (two seeded settings of the rest each)
-	for g := int64(1); g <= 6; g++ {
+	for g := int64(1); g <= 7; g++ {
 		reps := 1
 		if thorough {
 			reps = 6
@@ -579,19 +584,19 @@ func propC02(c *Ctx) int {
 		}
 	}
 	for i := 0; i < jobs1; i++ {
-		mk(1, 32, bits1)
+		mk(1, 37, bits1)
 	}
 	for i := 0; i < jobs2; i++ {
-		mk(2, 54, bits2)
+		mk(2, 59, bits2)
 	}
 	if reached == 0 {
 		c.Results[0].Inconclusive = append(c.Results[0].Inconclusive, "vacuity: no model round-trip was reached")
 	}
 	c.Log("model round-trips reached: %d", reached)
 	return c.Finish("model_checking", []string{
-		"abstract model (harness/core/zz_verif_c02.go): INFO (title, version, description), up to two SERVERs, TAGs, TYPEs (jsight and regex), ENUMs, 1..2 HTTP interactions (all five methods x path pool, own Tags / URL-level Tags / path tag, annotation, description, query, request none/any/schema/headers+body, OperationId, Tags or path tag, 1..2 responses in either order with any/@type/inline schema bodies, response headers and annotations), rendered with URL grouping or stand-alone methods, explicit ( ) or implicit contexts, // or /* */ annotations",
-		fmt.Sprintf("6 feature groups (tags: declared tags x own/URL-level Tags x grouping x paths; entities; responses; request/description; grouping/explicit contexts; second interaction) are made symbolic together with seeded settings of the rest; in addition each mask job makes %d (1 interaction) / %d (2 interactions) of the ~32/54 feature choices symbolic (seeded selection, the solver explores all their combinations) and fixes the rest (seeded); %d+%d jobs this run; the expected catalog digest is computed from the model alone and compared entry by entry (nothing missing, nothing invented, order, attachment to the right interaction/response), followed by the C05 closure invariants", bits1, bits2, jobs1, jobs2),
-		"outside: JSON emission (encoding/json), JSON-RPC models, more than two interactions, combinations of more feature choices than the symbolic ones of a job, MACRO/PASTE and INCLUDE renderings (covered relationally by C10/C09), layout variants (C08)",
+		"abstract model (harness/core/zz_verif_c02.go): INFO (title, version, description), up to two SERVERs, TAGs, TYPEs (jsight and regex), ENUMs, an optional JSON-RPC method (Params / Result / Description / Tags variants), 1..2 HTTP interactions (all five methods x path pool, request with Headers and Body in either order, response bodies any / @type / [@type] / inline schema, own Tags / URL-level Tags / path tag, annotation, description, query, request none/any/schema/headers+body, OperationId, Tags or path tag, 1..2 responses in either order with any/@type/inline schema bodies, response headers and annotations), rendered with URL grouping or stand-alone methods, explicit ( ) or implicit contexts, // or /* */ annotations",
+		fmt.Sprintf("7 feature groups (tags: declared tags x own/URL-level Tags x grouping x paths; entities; responses; request/description; grouping/explicit contexts; second interaction; JSON-RPC x tags) are made symbolic together with seeded settings of the rest; in addition each mask job makes %d (1 interaction) / %d (2 interactions) of the ~37/59 feature choices symbolic (seeded selection, the solver explores all their combinations) and fixes the rest (seeded); %d+%d jobs this run; the expected catalog digest is computed from the model alone and compared entry by entry (nothing missing, nothing invented, order, attachment to the right interaction/response), followed by the C05 closure invariants", bits1, bits2, jobs1, jobs2),
+		"outside: JSON emission (encoding/json), more than two HTTP interactions + one JSON-RPC method, combinations of more feature choices than the symbolic ones of a job, MACRO/PASTE and INCLUDE renderings (covered relationally by C10/C09), layout variants (C08)",
 		contractLoc, contractRune,
 	}, map[string]interface{}{"model_roundtrips": reached})
 }
